@@ -4,7 +4,7 @@ let ctl_of_char = function
   | 'A' -> CtlAltscreen | 'V' -> CtlCursorvis | 'B' -> CtlCursorblink | 'M' -> CtlMouse
   | 'H' -> CtlCursorshape | 'K' -> CtlKeypadApp | _ -> failwith "ctl"
 (* U only: the application holds / releases its own references (root window, terminal) *)
-type xop = Op of mop | Hold | Release
+type xop = Op of mop | Hold | Release | Tick
 let parse_mop s =
   match split_on ':' s with
   | [k; v] when String.length k = 1 && String.contains "AVBMHK" k.[0] -> OSet (ctl_of_char k.[0], zi v)
@@ -13,22 +13,28 @@ let parse_mop s =
   | ["c"; p] -> OChpen (parse_pen p)
   | ["Z"] -> OPause | ["R"] -> OResume | ["T"] -> OTeardown | ["D"] -> ODestroy
   | _ -> failwith "op"
-let parse_op s = match s with "w" | "h" -> Hold | "x" -> Release | _ -> Op (parse_mop s)
+let parse_op s = match s with "w" | "h" -> Hold | "x" -> Release | "t" -> Tick | _ -> Op (parse_mop s)
+(* W: the replies of the terminal in the loop that are read at tick number k, as model operations *)
+let reports_at (delays : int array) k =
+  let r = [| OReport (z_of_int 69, z_of_int 1); OReport (z_of_int 25, z_of_int 1);
+             OReport (z_of_int 12, z_of_int 2); ODecscusr (z_of_int 2) |] in
+  List.filter_map (fun i -> if delays.(i) = k then Some r.(i) else None) [0; 1; 2; 3]
 (* the operations the harness really runs, as model operations (None = no model step, must be silent).
    D of a toplevel is tickit_destroy = teardown + unref; it ends the case unless something is held;
    releasing what is held afterwards destroys the terminal (nothing left to undo) *)
-let effective layer (ops : xop list) : (mop list option) list =
-  let rec go held dead = function
+let effective layer delays (ops : xop list) : (mop list option) list =
+  let rec go held dead tick = function
     | [] -> []
-    | Hold :: r -> None :: go true dead r
-    | Release :: r -> if dead then [Some [ODestroy]] else None :: go false dead r
+    | Hold :: r -> None :: go true dead tick r
+    | Release :: r -> if dead then [Some [ODestroy]] else None :: go false dead tick r
+    | Tick :: r ->
+      (match reports_at delays tick with [] -> None | l -> Some l) :: go held dead (tick + 1) r
     | Op ODestroy :: r ->
-      if layer = 'U' then
-        (if dead then [] else Some [OTeardown; ODestroy] :: (if held then go held true r else []))
+      if layer <> 'T' then
+        (if dead then [] else Some [OTeardown; ODestroy] :: (if held then go held true tick r else []))
       else [Some [ODestroy]]
-    | Op o :: r -> if dead && (match o with OGet _ -> false | _ -> true) then Some [o] :: go held dead r
-      else Some [o] :: go held dead r in
-  go false false ops
+    | Op o :: r -> Some [o] :: go held dead tick r in
+  go false false 1 ops
 let probed decscusr rpm12 colon rgb =
   let d = xt_on_modereport xdrv_new (z_of_int 69) (z_of_int 1) in
   let d = xt_on_modereport d (z_of_int 25) (z_of_int 1) in
@@ -37,24 +43,39 @@ let probed decscusr rpm12 colon rgb =
   let d = xt_on_sgrreport d colon false in
   let ((d, _), _) = xt_setctl d CtlCapRgb8 (z_of_int (if rgb then 1 else 0)) in
   d
-type cse = { layer : char; alt : bool; decscusr : int; rpm12 : int; colon : bool; rgb : bool; ops : xop list }
+type cse = { layer : char; alt : bool; decscusr : int; rpm12 : int; colon : bool; rgb : bool; delays : int array; ops : xop list }
 let parse_case toks =
   match toks with
   | "T" :: ds :: r12 :: colon :: rgb :: ops ->
     { layer = 'T'; alt = false; decscusr = int_of_string ds; rpm12 = int_of_string r12; colon = colon <> "0";
-      rgb = rgb <> "0"; ops = List.map parse_op ops }
+      rgb = rgb <> "0"; delays = [| -1; -1; -1; -1 |]; ops = List.map parse_op ops }
+  | "W" :: alt :: colon :: rgb :: d0 :: d1 :: d2 :: d3 :: ops ->
+    { layer = 'W'; alt = alt <> "0"; decscusr = 2; rpm12 = 2; colon = colon <> "0"; rgb = rgb <> "0";
+      delays = Array.map int_of_string [| d0; d1; d2; d3 |]; ops = List.map parse_op ops }
   | "U" :: alt :: colon :: rgb :: ops ->
     { layer = 'U'; alt = alt <> "0"; decscusr = 2; rpm12 = 2; colon = colon <> "0"; rgb = rgb <> "0";
-      ops = List.map parse_op ops }
+      delays = [| -1; -1; -1; -1 |]; ops = List.map parse_op ops }
   | _ -> failwith "case"
+(* W: nothing is probed up front except separator / RGB; the first tick reads the replies that are there
+   (await_started) and then runs setupterm *)
+let start_drv c =
+  if c.layer = 'W' then
+    (let d = xt_on_sgrreport xdrv_new c.colon false in
+     let ((d, _), _) = xt_setctl d CtlCapRgb8 (z_of_int (if c.rgb then 1 else 0)) in d)
+  else probed c.decscusr c.rpm12 c.colon c.rgb
+let first_steps c =
+  match c.layer with
+  | 'U' -> [Some [OSetup c.alt]]
+  | 'W' -> [Some (reports_at c.delays 0 @ [OSetup c.alt])]
+  | _ -> []
 let first_op = function Some (o :: _) -> Some o | _ -> None
 let model line =
   let c = parse_case (split_ws line) in
   let b = Buffer.create 256 in
   Buffer.add_string b ("I:" ^ hex_of_bytes (render xt_start));
-  let t0 = { t_drv = probed c.decscusr c.rpm12 c.colon c.rgb; t_started = true; t_pen = empty_pen;
+  let t0 = { t_drv = start_drv c; t_started = true; t_pen = empty_pen;
              t_lines = z_of_int 25; t_cols = z_of_int 80 } in
-  let steps = (if c.layer = 'U' then [Some [OSetup c.alt]] else []) @ effective c.layer c.ops in
+  let steps = first_steps c @ effective c.layer c.delays c.ops in
   let _ = List.fold_left (fun st step ->
       match st, step with
       | None, _ -> None
@@ -66,7 +87,7 @@ let model line =
               | None -> (t, acc, value, false)
               | Some ((t', ts), v) -> (t', acc @ ts, v, true)) (t, [], None, true) ms in
         if not ok then (Buffer.add_string b " FAULT"; None) else begin
-          (match List.hd ms with
+          (match (if List.exists (function OSetup _ -> true | _ -> false) ms then List.nth ms (List.length ms - 1) else List.hd ms) with
            | OSet _ -> Buffer.add_string b (Printf.sprintf " %d:%s" (match value with Some v -> int_of_z v | None -> 0) (hex_of_bytes (render toks)))
            | OGet _ -> Buffer.add_string b (match value with Some v -> Printf.sprintf " =%d" (int_of_z v) | None -> " =fail")
            | OSetup _ -> Buffer.add_string b (" S:" ^ hex_of_bytes (render toks))
@@ -86,7 +107,7 @@ let oracle kp line =
        let v0 = set_md v0 (md_set_blink v0.v_md (c.rpm12 = 1)) in
        let v0 = if c.decscusr >= 0 then set_md v0 (md_set_shape v0.v_md (z_of_int c.decscusr)) else v0 in
        let init_ms = ms_of_vt v0 in
-       let steps = (if c.layer = 'U' then [Some [OSetup c.alt]] else []) @ effective c.layer c.ops in
+       let steps = first_steps c @ effective c.layer c.delays c.ops in
        if List.length obs <> List.length steps then "BAD obs count" else begin
          (* taking or releasing a reference while the instance lives must write nothing *)
          let noisy = List.exists2 (fun st ob -> st = None && ob <> "-") steps obs in
@@ -104,7 +125,7 @@ let oracle kp line =
                    ((o, bytes_of_hex (String.sub ob 2 (String.length ob - 2))), None) else failwith "obs setup"
                | _ -> ((o, bytes_of_hex ob), None)) pairs in
            let s0 = { os_vt = v0; os_last = (fun _ -> None); os_pen = empty_pen; os_paused = false; os_stopped = false } in
-           match oracle_modes kp c.colon c.rgb (c.decscusr >= 0) init_ms O s0 items with
+           match oracle_modes kp c.colon c.rgb (if c.layer = 'W' then false else c.decscusr >= 0) init_ms O s0 items with
            | MOk n -> Printf.sprintf "OK %d" (int_of_nat n)
            | MOutOfRange i -> Printf.sprintf "OK range@%d" (int_of_nat i)
            | MBadAt (i, w) -> Printf.sprintf "BAD @%d why=%d" (int_of_nat i) (int_of_nat w)
